@@ -51,6 +51,12 @@ def run(chk):
     pcrel.run_position(chk, emit, UNIT)
 
     # C01.f prefix order, AH/AL ambiguity, packed-field tests (rules added after an independent probe of the unchanged tree)
+    fw = chk.facts(UNIT, funcs=r"asmjit::x86::X86BufferWriter::[a-z_0-9]+$")
+    x86order.WRITER_HELPERS.clear()
+    x86order._HELPER_KIND.clear()
+    for fo in fw["functions"]:
+        g = cfg.Fn(fo)
+        x86order.WRITER_HELPERS.setdefault(g.name, g)
     x86order.prefix_order(chk, emit, UNIT)
     x86order.gpb_compare(chk, emit, UNIT)
     x86order.field_compare(chk, emit, UNIT)
